@@ -164,8 +164,18 @@ def _sig_uf_in_arith(case, res):
     if case["logic"] not in ("QF_LRA", "QF_LIA", "QF_RDL", "QF_IDL"):
         return False
     return any(x.startswith("(declare-sort") for x in case["decls"]) or \
-        any(x.startswith("(declare-fun f") for x in case["decls"])
+        any(x.startswith("(declare-fun f") or "(Array " in x for x in case["decls"])
+
+
+def _family(name):
+    def f(case, res):
+        from . import sigs
+        d = res.detail or {}
+        return d.get("what") == "wrong-sat-outside-logic" and sigs.WRONG_SAT_FAMILIES[name](case, d.get("cmd_index"))
+    return f
 
 
 SIGNATURES = {"non-difference-atom-in-difference-logic": _sig_dl,
-              "uninterpreted-symbols-in-pure-arithmetic-logic": _sig_uf_in_arith}
+              "uninterpreted-symbols-in-pure-arithmetic-logic": _sig_uf_in_arith,
+              "uf-bool-argument-theory-combination-wrong-sat": _family("uf-bool-argument-theory-combination-wrong-sat"),
+              "non-incremental-second-check-sat": _family("non-incremental-second-check-sat")}
